@@ -22,6 +22,7 @@ import (
 	"os"
 	"runtime"
 	"strconv"
+	"strings"
 	"time"
 
 	"github.com/nats-io/nats.go"
@@ -66,12 +67,21 @@ func main() {
 		}
 		tok, _ := st.GetAuthorizer().NewToken("u")
 		say("OPENED root=%s token=%s", rn.ID, tok)
+		// a write counts as acknowledged the moment the store PUBLISHES its (empty = success) reply, not
+		// when the requester has finished processing it: the line is printed from a bus spy, on the
+		// handler's own thread, before the handler goes on
+		acks := 0
+		bus.Spy(func(subject, reply string, d []byte) {
+			if strings.HasPrefix(subject, "_INBOX.") && len(d) == 0 {
+				acks++
+				say("ACK %d", acks)
+			}
+		})
 		for k, q := range c04.History(h, rn.ID) {
 			if err := c04.Send(nc, q); err != nil {
 				say("REFUSED %d %v", k+1, err)
 				os.Exit(5)
 			}
-			say("ACK %d", k+1)
 		}
 		st.Stop(nil)
 	}
